@@ -451,7 +451,11 @@ class Simulator(EventProducer, SimulatorInterface, Generic[TIME]):
         finally:
             self.fire_timed(self._simulator_time,
                             Simulator.STOP_EVENT, None)
-            self._run_state = RunState.STOPPED
+            # cleanup() or initialize() called by the handler of this step
+            # already left the running state: keep the state they set
+            if (self.is_starting_or_running()
+                    or self._run_state == RunState.STOPPING):
+                self._run_state = RunState.STOPPED
             self._stepping = False
             if self._replication_state == ReplicationState.ENDING:
                 # end_replication() was called during this step
